@@ -404,6 +404,15 @@ def run_iter(chk, F, rid="R-ITER"):
             if isinstance(v, (dict, list)):
                 scan(v, in_loop)
     scan(fn["body"], False)
+    # a wrapper that reads the <declaration> element with a fixed part (`localDeclaration()` -> declaration(S_LOCAL_DECL))
+    # is the declaration step
+    def is_decl_wrapper(name):
+        t = F.resolve_method("UTAP::XMLReader", name)
+        return t is not None and t.get("body") is not None and name != "declaration" and \
+            any(c.get("name") == "declaration" for c in calls(t["body"])) and \
+            not any(n_.get("k") in ("while", "for") for n_ in walk(t["body"]))
+    seq = [("declaration" if (s_ not in ("declaration",) and s_ and "eclaration" in s_ and is_decl_wrapper(s_)) else s_, lp)
+           for s_, lp in seq]
     names = [s for s, _ in seq if s in ("proc_begin", "declaration", "location", "branchpoint", "init", "transition", "proc_end")]
     want = ["proc_begin", "declaration", "location", "branchpoint", "init", "transition", "proc_end"]
     chk.ob(rid, "templ|order", names == want,
